@@ -543,6 +543,54 @@ fn gen_members(r: &mut Rng, n: usize, allow_echo: bool) -> Vec<String> {
         .collect()
 }
 
+/// A pipeline whose stages block on I/O with each other: a producer of N bytes, optionally a `cat`, and
+/// a consumer that takes everything (`d`), K bytes (`tK.S`) or nothing (`sS`), with N around the
+/// capacity of the virtual pipe (PIPE_SIZE = 1024, PIPE_BUF = 512).  Race-free by construction: either
+/// the consumer takes everything (N <= K), or what it leaves exceeds what the pipes (and `cat`'s
+/// buffer) in between can hold, so that the producer fails with EPIPE under every schedule.
+fn gen_flow(r: &mut Rng) -> String {
+    const SIZES: [usize; 16] = [0, 1, 2, 511, 512, 513, 1023, 1024, 1025, 1535, 1536, 2047, 2048, 2049, 3000, 4096];
+    let st = *r.pick(&STATUSES);
+    let with_cat = r.chance(1, 3);
+    let slack = if with_cat { 4097 } else { 1025 }; // more than the pipes in between can buffer
+    let deltas: [usize; 5] = [0, 1, 511, 1024, 3000];
+    // consumer and the number of bytes it takes
+    let (consumer, takes): (String, Option<usize>) = match r.below(5) {
+        0..=1 => ("d".to_string(), None),
+        2..=3 => {
+            let k = *r.pick(&SIZES);
+            (format!("t{k}.{st}"), Some(k))
+        }
+        _ => (format!("s{st}"), Some(0)),
+    };
+    let n = match takes {
+        None => *r.pick(&SIZES),
+        Some(k) => {
+            if r.chance(1, 2) {
+                // everything is taken: N <= K
+                let c: Vec<usize> = SIZES.iter().copied().filter(|n| *n <= k).collect();
+                *r.pick(&c)
+            } else {
+                k + slack + *r.pick(&deltas)
+            }
+        }
+    };
+    let mut ms: Vec<String> = vec![];
+    let prefix = !with_cat && r.chance(1, 4);
+    if prefix {
+        ms.push(format!("s{}", r.pick(&STATUSES)));
+    }
+    ms.push(format!("w{n}"));
+    if with_cat {
+        ms.push("c".to_string());
+    }
+    ms.push(consumer.clone());
+    if !with_cat && !prefix && consumer.starts_with('t') && r.chance(1, 3) {
+        ms.push("d".to_string());
+    }
+    format!("fp {}", ms.join(" "))
+}
+
 /// A race-free program with at most 5 live processes (the shell included).
 fn gen_program(r: &mut Rng, thorough: bool) -> String {
     let len = 2 + r.below(if thorough { 7 } else { 5 });
@@ -560,7 +608,8 @@ fn gen_program(r: &mut Rng, thorough: bool) -> String {
         }
         let s = match choice {
             0 => (if r.chance(1, 2) { "pf1" } else { "pf0" }).to_string(),
-            1..=4 if room >= 2 => {
+            1 if room >= 3 => gen_flow(r),
+            2..=4 if room >= 2 => {
                 let n = 2 + r.below(room.min(4) - 1);
                 format!("{} {}", if r.chance(1, 5) { "np" } else { "p" }, gen_members(r, n, true).join(" "))
             }
@@ -636,7 +685,15 @@ fn gen_program(r: &mut Rng, thorough: bool) -> String {
     stmts.join("; ")
 }
 
-const FIXED_PROGRAMS: [&str; 20] = [
+const FIXED_PROGRAMS: [&str; 28] = [
+    "fp w4096 s7",
+    "pf1; fp w4096 s0; pf0; fp w4096 s0",
+    "fp w1024 t1024.3; fp w1025 t1025.0; fp w2049 d",
+    "fp w2050 t1.5; fp w1026 t1.0 d",
+    "fp w9000 c t100.2; fp w3000 c d; fp w6000 c s9",
+    "fp s5 w2049 t1024.0; fp s5 w1024 d",
+    "pf1; fp w5000 c t10.0; fp w512 c t512.0",
+    "bg s3; fp w4096 s7; wj 1; w",
     "bg s3; wj u 1; w",
     "bg s3; bg s4; wj 1; wj 1 2; w",
     "bg s3; bg s4; wj 1 % 2; w",
